@@ -292,7 +292,13 @@ where
     let mut result = operand.checked_add(D::from_num(1)).ok_or(())?;
     let mut term = operand;
 
-    for i in 2..D::frac_nbits() {
+    // Add terms until they vanish. For large operands the terms first grow, so a fixed
+    // count of frac_nbits() terms truncates the series; the bound keeps the loop finite
+    // (a result needing more terms does not fit) and i representable in D.
+    let max_terms = D::frac_nbits() + 4 * D::int_nbits();
+    let mut i = 1;
+    while i + 1 < max_terms && term != D::from_num(0) {
+        i += 1;
         verif_tick!();
         term = if let Some(r) = term.checked_mul(operand) {
             r
